@@ -9,11 +9,18 @@ def find(ctx, oblig, diag):
                 res["source"] = "malformed x-amz-date through S3Service::call with SimpleAuth"
                 return res
         return res
+    if "skipped" in oblig:
+        r = ctx["replay_tool"](["sigv4-tamper"])
+        if r is not None and r.get("violates"): r["source"] = "correctly signed requests with the signature text altered or unsigned parameters appended"
+        return r
     return None
 
 def standing(ctx, oblig, diag):
     r = find(ctx, "sigleaf.digit", diag)
     if r and r.get("violates"): return r
+    rt = ctx["replay_tool"](["sigv4-tamper"])
+    if rt is not None and rt.get("violates"):
+        rt["source"] = "correctly signed requests with the signature text altered or unsigned parameters appended"; return rt
     r2 = ctx["replay_tool"](["sigv4-search"])
     if r2.get("violates") and r2.get("input", {}).get("query") not in ([["x", "2"], ["x", "1"]],):
         r2["source"] = "requests signed by the reference signer (paths/queries with special characters)"; return r2
